@@ -32,7 +32,7 @@ def automatic_actions(tier, seed, tail):
     return []
 
 
-def oneway_scenarios(tier, seed, tail):
+def oneway_scenarios(tier, seed, tail, only2=False):
     """One-way communication glitches: the messages of a towards b are lost for longer than the inactivity timeout
     while b's messages still reach a, for every ordered pair, every boot order (so that the Master is not always the
     lowest nick) and several glitch lengths; then everything flows again and the instances must agree."""
@@ -40,6 +40,8 @@ def oneway_scenarios(tier, seed, tail):
     from recorder import Driver
     out = []
     for n_inst, sync in ((3, ('LIST', 'TIMEOUT')), (3, ('STRICT',)), (2, ('TIMEOUT',)), (2, ('STRICT',))):
+        if only2 and n_inst != 2:
+            continue
         cfg = cl.Config(n=n_inst, sync=sync)
         traces, recs = [], {}
         k = 0
@@ -78,7 +80,7 @@ def oneway_scenarios(tier, seed, tail):
                         cl.fair_tail(d, cfg, tail)
                     finally:
                         c.close()
-                    traces.append(cl.mon_trace(k, d.rec, cfg, False, True))
+                    traces.append(cl.mon_trace(k, d.rec, cfg, True, False))
                     recs[k] = d.rec
                     k += 1
         out.append((cfg, traces, recs))
